@@ -6,6 +6,7 @@ import (
 	"math/rand"
 	"os"
 	"path/filepath"
+	"time"
 
 	"google.golang.org/grpc/codes"
 
@@ -242,7 +243,23 @@ func C15(c *core.Ctx) {
 		"(establishment, FAR / QER / PDR update, flow removal, flow addition, deletion) the request is first run unfaulted to count its Write RPCs n and then "+
 		"repeated with the k-th RPC failing for every k = 1..n (whole-RPC failures and per-update failures with five status codes), each followed by a probe "+
 		"session of another association; then random multi-fault histories and a burst of sessions that cycles the pools, all next to a crowd of live sessions; "+
-		"after every step the switch entries and the guarded snapshot of the plug-in's pools are judged by the C15 invariants of Up4Image; evaluations = script steps")
+		"after every step the switch entries and the guarded snapshot of the plug-in's pools are judged by the C15 invariants of Up4Image; "+
+		"design level: RefCounted.tla (tunnel peers / applications as coded after the repairs, every write may fail; 3 keys, 3 users, 2 IDs, 3 faults) is model-checked, and the original "+
+		"release order as negative control; evaluations = script steps")
+
+	// design level: the reference-counted shared objects as coded after the repairs, every write may fail; and the
+	// original order (ID freed before the entry is deleted) as negative control, where TLC must find the violation
+	if r, err := c.RunTLC(core.TLCRun{Module: "RefCounted", Cfg: "MCRefCounted.cfg", Workers: 4, HeapMB: 2048, Timeout: 5 * time.Minute, Label: "mc"}); err != nil || !r.OK() {
+		c.Inconclusive("model check of RefCounted did not pass")
+	} else {
+		c.AddTLC("mc", r)
+	}
+
+	if r, err := c.RunTLC(core.TLCRun{Module: "RefCounted", Cfg: "MCRefCountedOld.cfg", Workers: 1, HeapMB: 1024, Timeout: 5 * time.Minute, Label: "mc-old"}); err != nil || r.Violated != "NotFreeWhileInUse" {
+		c.Inconclusive("negative control: the model of the original release order no longer violates NotFreeWhileInUse")
+	} else {
+		c.AddCount("negative_controls_found", 1)
+	}
 
 	res := runE2EShards(c, "e2e-up4-faults", shards, "TraceE2E_C15.cfg", func(i int) interface{} {
 		d, tr := shardDir(c, i)
